@@ -13,13 +13,13 @@ specfn('gauss_ll', "lambda x, mu, theta, logdet_theta, nw: 0.5 * (logdet_theta -
 
 contract(LK + 'point_log_likelihood_fast', props=['C05', 'C15', 'C19'],
          params=dict(point='arr1[real]', mu_i='arr1[real]', theta_i='arr2[real]', log_det_theta='real', window_size='int',
-                     num_data_series='int'), returns='real',
+                     num_data_series='real'), returns='real',
          requires=["point.shape[0] == mu_i.shape[0]", "theta_i.shape[0] == point.shape[0]", "theta_i.shape[1] == point.shape[0]"],
          ensures=[("gaussian-log-density", "result == gauss_ll(point, mu_i, theta_i, log_det_theta, window_size * num_data_series)"),
                   "unchanged(point, mu_i, theta_i)"])
 
 contract(LK + 'point_log_likelihood', props=['C05', 'C06', 'C19'],
-         params=dict(point='arr1[real]', cluster='obj:ClusterParameters', window_size='int', num_data_series='int'), returns='real',
+         params=dict(point='arr1[real]', cluster='obj:ClusterParameters', window_size='int', num_data_series='real'), returns='real',
          requires=["not isnone(cluster.stacked_data_mean) and not isnone(cluster.inverse_covariance)",
                    "point.shape[0] == cluster.stacked_data_mean.shape[0]", "cluster.inverse_covariance.shape[0] == point.shape[0]",
                    "cluster.inverse_covariance.shape[1] == point.shape[0]"],
